@@ -22,9 +22,9 @@ theorem AnsRel.of_eq {a b : Ans} (h : a = b) : AnsRel a b := by
 
 /-- the abstraction relation between the registers of P and of S -/
 def StRel (p s : St) : Prop :=
-  MapRel p.cm s.cm ∧ SetRel p.cs s.cs ∧ p.cl = s.cl ∧ p.cv = s.cv ∧ p.cb = s.cb ∧ p.ct = s.ct
+  MapRel p.cm s.cm ∧ SetRel p.cs s.cs ∧ p.cl = s.cl ∧ p.cv = s.cv ∧ p.ci = s.ci ∧ p.cb = s.cb ∧ p.ct = s.ct
 
-theorem stRel_init : StRel {} {} := ⟨mapRel_nil, setRel_nil, rfl, rfl, rfl, rfl⟩
+theorem stRel_init : StRel {} {} := ⟨mapRel_nil, setRel_nil, rfl, rfl, rfl, rfl, rfl⟩
 
 theorem mOfList_eq (kvs : List (Int × Int)) : mOfList kvs = kvs.foldl (fun m e => mInsert m e.1 e.2) [] := rfl
 
@@ -35,139 +35,160 @@ theorem literal_map (ks vs : List Int) :
 
 theorem step_refines (p s : St) (h : StRel p s) (op : Op) :
     StRel (stepP p op).1 (stepS s op).1 ∧ AnsRel (stepP p op).2 (stepS s op).2 := by
-  obtain ⟨pcm, pcs, pcl, pcv, pcb, pct⟩ := p
-  obtain ⟨scm, scs, scl, scv, scb, sct⟩ := s
-  obtain ⟨hm, hs, hl, hv, hb, ht⟩ := h
-  simp only at hm hs hl hv hb ht
-  subst hl hv hb ht
+  obtain ⟨pcm, pcs, pcl, pcv, pci, pcb, pct⟩ := p
+  obtain ⟨scm, scs, scl, scv, sci, scb, sct⟩ := s
+  obtain ⟨hm, hs, hl, hv, hi, hb, ht⟩ := h
+  simp only at hm hs hl hv hi hb ht
+  subst hl hv hi hb ht
   cases op with
   | mNew ks vs =>
     have := literal_map ks vs
     simp only [stepP, stepS]
     cases h1 : Prim.hmConstruct [] ks vs <;> cases h2 : mkPairs ks vs <;> simp only [h1, h2, OptRel] at this ⊢
-    · exact ⟨⟨hm, hs, rfl, rfl, rfl, rfl⟩, AnsRel.of_eq rfl⟩
-    · exact ⟨⟨this, hs, rfl, rfl, rfl, rfl⟩, this.perm⟩
-  | mInsert k v => exact ⟨⟨hm.insert k v, hs, rfl, rfl, rfl, rfl⟩, (hm.insert k v).perm⟩
-  | mRemove k => exact ⟨⟨hm.remove k, hs, rfl, rfl, rfl, rfl⟩, (hm.remove k).perm⟩
+    · exact ⟨⟨hm, hs, rfl, rfl, rfl, rfl, rfl⟩, AnsRel.of_eq rfl⟩
+    · exact ⟨⟨this, hs, rfl, rfl, rfl, rfl, rfl⟩, this.perm⟩
+  | mInsert k v => exact ⟨⟨hm.insert k v, hs, rfl, rfl, rfl, rfl, rfl⟩, (hm.insert k v).perm⟩
+  | mRemove k => exact ⟨⟨hm.remove k, hs, rfl, rfl, rfl, rfl, rfl⟩, (hm.remove k).perm⟩
   | mRef k =>
-    refine ⟨⟨hm, hs, rfl, rfl, rfl, rfl⟩, AnsRel.of_eq ?_⟩
+    refine ⟨⟨hm, hs, rfl, rfl, rfl, rfl, rfl⟩, AnsRel.of_eq ?_⟩
     simp only [stepP, stepS, hm.ref k]
   | mTryGet k =>
-    refine ⟨⟨hm, hs, rfl, rfl, rfl, rfl⟩, AnsRel.of_eq ?_⟩
+    refine ⟨⟨hm, hs, rfl, rfl, rfl, rfl, rfl⟩, AnsRel.of_eq ?_⟩
     simp only [stepP, stepS, hmGet_eq, hm.2.2 k]
   | mContains k =>
-    refine ⟨⟨hm, hs, rfl, rfl, rfl, rfl⟩, AnsRel.of_eq ?_⟩
+    refine ⟨⟨hm, hs, rfl, rfl, rfl, rfl, rfl⟩, AnsRel.of_eq ?_⟩
     simp only [stepP, stepS, hm.contains k]
   | mLen =>
-    refine ⟨⟨hm, hs, rfl, rfl, rfl, rfl⟩, AnsRel.of_eq ?_⟩
+    refine ⟨⟨hm, hs, rfl, rfl, rfl, rfl, rfl⟩, AnsRel.of_eq ?_⟩
     simp only [stepP, stepS, mLength, hm.perm.length_eq]
-  | mKeys => exact ⟨⟨hm, hs, rfl, rfl, rfl, rfl⟩, hm.perm.map Prod.fst⟩
-  | mValues => exact ⟨⟨hm, hs, rfl, rfl, rfl, rfl⟩, hm.perm.map Prod.snd⟩
-  | mClear => exact ⟨⟨mapRel_nil, hs, rfl, rfl, rfl, rfl⟩, List.Perm.refl _⟩
+  | mKeys => exact ⟨⟨hm, hs, rfl, rfl, rfl, rfl, rfl⟩, hm.perm.map Prod.fst⟩
+  | mValues => exact ⟨⟨hm, hs, rfl, rfl, rfl, rfl, rfl⟩, hm.perm.map Prod.snd⟩
+  | mClear => exact ⟨⟨mapRel_nil, hs, rfl, rfl, rfl, rfl, rfl⟩, List.Perm.refl _⟩
   | mUnion regLeft ul ur ks vs =>
     have := literal_map ks vs
     simp only [stepP, stepS]
     cases h1 : Prim.hmConstruct [] ks vs <;> cases h2 : mkPairs ks vs <;> simp only [h1, h2, OptRel] at this ⊢
-    · exact ⟨⟨hm, hs, rfl, rfl, rfl, rfl⟩, AnsRel.of_eq rfl⟩
+    · exact ⟨⟨hm, hs, rfl, rfl, rfl, rfl, rfl⟩, AnsRel.of_eq rfl⟩
     · cases regLeft
-      · exact ⟨⟨this.union hm ul ur, hs, rfl, rfl, rfl, rfl⟩, (this.union hm ul ur).perm⟩
-      · exact ⟨⟨hm.union this ul ur, hs, rfl, rfl, rfl, rfl⟩, (hm.union this ul ur).perm⟩
-  | sNew ks => exact ⟨⟨hm, setRel_construct ks, rfl, rfl, rfl, rfl⟩, (setRel_construct ks).perm⟩
-  | sInsert k => exact ⟨⟨hm, hs.insert k, rfl, rfl, rfl, rfl⟩, (hs.insert k).perm⟩
+      · exact ⟨⟨this.union hm ul ur, hs, rfl, rfl, rfl, rfl, rfl⟩, (this.union hm ul ur).perm⟩
+      · exact ⟨⟨hm.union this ul ur, hs, rfl, rfl, rfl, rfl, rfl⟩, (hm.union this ul ur).perm⟩
+  | sNew ks => exact ⟨⟨hm, setRel_construct ks, rfl, rfl, rfl, rfl, rfl⟩, (setRel_construct ks).perm⟩
+  | sInsert k => exact ⟨⟨hm, hs.insert k, rfl, rfl, rfl, rfl, rfl⟩, (hs.insert k).perm⟩
   | sContains k =>
-    refine ⟨⟨hm, hs, rfl, rfl, rfl, rfl⟩, AnsRel.of_eq ?_⟩
+    refine ⟨⟨hm, hs, rfl, rfl, rfl, rfl, rfl⟩, AnsRel.of_eq ?_⟩
     simp only [stepP, stepS, hs.contains k]
   | sLen =>
-    refine ⟨⟨hm, hs, rfl, rfl, rfl, rfl⟩, AnsRel.of_eq ?_⟩
+    refine ⟨⟨hm, hs, rfl, rfl, rfl, rfl, rfl⟩, AnsRel.of_eq ?_⟩
     simp only [stepP, stepS, sLength, hs.perm.length_eq]
-  | sToList => exact ⟨⟨hm, hs, rfl, rfl, rfl, rfl⟩, hs.perm⟩
-  | sClear => exact ⟨⟨hm, setRel_nil, rfl, rfl, rfl, rfl⟩, List.Perm.refl _⟩
+  | sToList => exact ⟨⟨hm, hs, rfl, rfl, rfl, rfl, rfl⟩, hs.perm⟩
+  | sClear => exact ⟨⟨hm, setRel_nil, rfl, rfl, rfl, rfl, rfl⟩, List.Perm.refl _⟩
   | sSubset regLeft ks =>
-    refine ⟨⟨hm, hs, rfl, rfl, rfl, rfl⟩, AnsRel.of_eq ?_⟩
+    refine ⟨⟨hm, hs, rfl, rfl, rfl, rfl, rfl⟩, AnsRel.of_eq ?_⟩
     cases regLeft
     · simp only [stepP, stepS, Bool.false_eq_true, if_false, (setRel_construct ks).subset hs]
     · simp only [stepP, stepS, if_true, hs.subset (setRel_construct ks)]
   | sUnion regLeft ks =>
     cases regLeft
-    · exact ⟨⟨hm, (setRel_construct ks).union hs, rfl, rfl, rfl, rfl⟩, ((setRel_construct ks).union hs).perm⟩
-    · exact ⟨⟨hm, hs.union (setRel_construct ks), rfl, rfl, rfl, rfl⟩, (hs.union (setRel_construct ks)).perm⟩
+    · exact ⟨⟨hm, (setRel_construct ks).union hs, rfl, rfl, rfl, rfl, rfl⟩, ((setRel_construct ks).union hs).perm⟩
+    · exact ⟨⟨hm, hs.union (setRel_construct ks), rfl, rfl, rfl, rfl, rfl⟩, (hs.union (setRel_construct ks)).perm⟩
   | sInter regLeft ks =>
     cases regLeft
-    · exact ⟨⟨hm, (setRel_construct ks).inter hs, rfl, rfl, rfl, rfl⟩, ((setRel_construct ks).inter hs).perm⟩
-    · exact ⟨⟨hm, hs.inter (setRel_construct ks), rfl, rfl, rfl, rfl⟩, (hs.inter (setRel_construct ks)).perm⟩
+    · exact ⟨⟨hm, (setRel_construct ks).inter hs, rfl, rfl, rfl, rfl, rfl⟩, ((setRel_construct ks).inter hs).perm⟩
+    · exact ⟨⟨hm, hs.inter (setRel_construct ks), rfl, rfl, rfl, rfl, rfl⟩, (hs.inter (setRel_construct ks)).perm⟩
   | sDiff regLeft ks =>
     cases regLeft
-    · exact ⟨⟨hm, (setRel_construct ks).symDiff hs, rfl, rfl, rfl, rfl⟩, ((setRel_construct ks).symDiff hs).perm⟩
-    · exact ⟨⟨hm, hs.symDiff (setRel_construct ks), rfl, rfl, rfl, rfl⟩, (hs.symDiff (setRel_construct ks)).perm⟩
-  | lNew xs => exact ⟨⟨hm, hs, rfl, rfl, rfl, rfl⟩, AnsRel.of_eq rfl⟩
-  | lLen => exact ⟨⟨hm, hs, rfl, rfl, rfl, rfl⟩, AnsRel.of_eq rfl⟩
-  | lRef i => exact ⟨⟨hm, hs, rfl, rfl, rfl, rfl⟩, AnsRel.of_eq rfl⟩
+    · exact ⟨⟨hm, (setRel_construct ks).symDiff hs, rfl, rfl, rfl, rfl, rfl⟩, ((setRel_construct ks).symDiff hs).perm⟩
+    · exact ⟨⟨hm, hs.symDiff (setRel_construct ks), rfl, rfl, rfl, rfl, rfl⟩, (hs.symDiff (setRel_construct ks)).perm⟩
+  | lNew xs => exact ⟨⟨hm, hs, rfl, rfl, rfl, rfl, rfl⟩, AnsRel.of_eq rfl⟩
+  | lLen => exact ⟨⟨hm, hs, rfl, rfl, rfl, rfl, rfl⟩, AnsRel.of_eq rfl⟩
+  | lRef i => exact ⟨⟨hm, hs, rfl, rfl, rfl, rfl, rfl⟩, AnsRel.of_eq rfl⟩
   | lFirst =>
     simp only [stepP, stepS, first_eq]
-    exact ⟨⟨hm, hs, rfl, rfl, rfl, rfl⟩, AnsRel.of_eq rfl⟩
+    exact ⟨⟨hm, hs, rfl, rfl, rfl, rfl, rfl⟩, AnsRel.of_eq rfl⟩
   | lLast =>
     simp only [stepP, stepS, last_eq]
-    exact ⟨⟨hm, hs, rfl, rfl, rfl, rfl⟩, AnsRel.of_eq rfl⟩
+    exact ⟨⟨hm, hs, rfl, rfl, rfl, rfl, rfl⟩, AnsRel.of_eq rfl⟩
   | lRest =>
     simp only [stepP, stepS, rest_eq]
-    exact ⟨⟨hm, hs, rfl, rfl, rfl, rfl⟩, AnsRel.of_eq rfl⟩
-  | lTake n => exact ⟨⟨hm, hs, rfl, rfl, rfl, rfl⟩, AnsRel.of_eq rfl⟩
+    exact ⟨⟨hm, hs, rfl, rfl, rfl, rfl, rfl⟩, AnsRel.of_eq rfl⟩
+  | lTake n => exact ⟨⟨hm, hs, rfl, rfl, rfl, rfl, rfl⟩, AnsRel.of_eq rfl⟩
   | lTail n =>
     simp only [stepP, stepS, listTail_eq]
-    exact ⟨⟨hm, hs, rfl, rfl, rfl, rfl⟩, AnsRel.of_eq rfl⟩
+    exact ⟨⟨hm, hs, rfl, rfl, rfl, rfl, rfl⟩, AnsRel.of_eq rfl⟩
   | lDrop n =>
     simp only [stepP, stepS, drop_eq]
-    exact ⟨⟨hm, hs, rfl, rfl, rfl, rfl⟩, AnsRel.of_eq rfl⟩
+    exact ⟨⟨hm, hs, rfl, rfl, rfl, rfl, rfl⟩, AnsRel.of_eq rfl⟩
   | lAppend before after =>
     simp only [stepP, stepS, append_eq]
-    exact ⟨⟨hm, hs, rfl, rfl, rfl, rfl⟩, AnsRel.of_eq rfl⟩
-  | lReverse => exact ⟨⟨hm, hs, rfl, rfl, rfl, rfl⟩, AnsRel.of_eq rfl⟩
-  | lCons x => exact ⟨⟨hm, hs, rfl, rfl, rfl, rfl⟩, AnsRel.of_eq rfl⟩
+    exact ⟨⟨hm, hs, rfl, rfl, rfl, rfl, rfl⟩, AnsRel.of_eq rfl⟩
+  | lReverse => exact ⟨⟨hm, hs, rfl, rfl, rfl, rfl, rfl⟩, AnsRel.of_eq rfl⟩
+  | lCons x => exact ⟨⟨hm, hs, rfl, rfl, rfl, rfl, rfl⟩, AnsRel.of_eq rfl⟩
   | lRange lo hi =>
     simp only [stepP, stepS, range_eq]
-    exact ⟨⟨hm, hs, rfl, rfl, rfl, rfl⟩, AnsRel.of_eq rfl⟩
-  | vNew xs => exact ⟨⟨hm, hs, rfl, rfl, rfl, rfl⟩, AnsRel.of_eq rfl⟩
-  | vLen => exact ⟨⟨hm, hs, rfl, rfl, rfl, rfl⟩, AnsRel.of_eq rfl⟩
+    exact ⟨⟨hm, hs, rfl, rfl, rfl, rfl, rfl⟩, AnsRel.of_eq rfl⟩
+  | vNew xs => exact ⟨⟨hm, hs, rfl, rfl, rfl, rfl, rfl⟩, AnsRel.of_eq rfl⟩
+  | vLen => exact ⟨⟨hm, hs, rfl, rfl, rfl, rfl, rfl⟩, AnsRel.of_eq rfl⟩
   | vRef i =>
     simp only [stepP, stepS, vectorRef_eq]
-    exact ⟨⟨hm, hs, rfl, rfl, rfl, rfl⟩, AnsRel.of_eq rfl⟩
+    exact ⟨⟨hm, hs, rfl, rfl, rfl, rfl, rfl⟩, AnsRel.of_eq rfl⟩
   | vSet i x =>
     simp only [stepP, stepS, vectorSet_eq]
-    exact ⟨⟨hm, hs, rfl, rfl, rfl, rfl⟩, AnsRel.of_eq rfl⟩
-  | vPush x => exact ⟨⟨hm, hs, rfl, rfl, rfl, rfl⟩, AnsRel.of_eq rfl⟩
+    exact ⟨⟨hm, hs, rfl, rfl, rfl, rfl, rfl⟩, AnsRel.of_eq rfl⟩
+  | vPush x => exact ⟨⟨hm, hs, rfl, rfl, rfl, rfl, rfl⟩, AnsRel.of_eq rfl⟩
   | vAppend before after =>
     simp only [stepP, stepS, vectorAppend_eq]
-    exact ⟨⟨hm, hs, rfl, rfl, rfl, rfl⟩, AnsRel.of_eq rfl⟩
+    exact ⟨⟨hm, hs, rfl, rfl, rfl, rfl, rfl⟩, AnsRel.of_eq rfl⟩
+  | iNew xs => exact ⟨⟨hm, hs, rfl, rfl, rfl, rfl, rfl⟩, AnsRel.of_eq rfl⟩
+  | iLen => exact ⟨⟨hm, hs, rfl, rfl, rfl, rfl, rfl⟩, AnsRel.of_eq rfl⟩
+  | iRef i =>
+    simp only [stepP, stepS, ivRef_eq]
+    exact ⟨⟨hm, hs, rfl, rfl, rfl, rfl, rfl⟩, AnsRel.of_eq rfl⟩
+  | iPush x => exact ⟨⟨hm, hs, rfl, rfl, rfl, rfl, rfl⟩, AnsRel.of_eq rfl⟩
+  | iSet u i x =>
+    simp only [stepP, stepS, ivSet_eq]
+    exact ⟨⟨hm, hs, rfl, rfl, rfl, rfl, rfl⟩, AnsRel.of_eq rfl⟩
+  | iTake u n =>
+    simp only [stepP, stepS, ivTake_eq]
+    exact ⟨⟨hm, hs, rfl, rfl, rfl, rfl, rfl⟩, AnsRel.of_eq rfl⟩
+  | iDrop u n =>
+    simp only [stepP, stepS, ivDrop_eq]
+    exact ⟨⟨hm, hs, rfl, rfl, rfl, rfl, rfl⟩, AnsRel.of_eq rfl⟩
+  | iRest =>
+    simp only [stepP, stepS, ivRest_eq]
+    exact ⟨⟨hm, hs, rfl, rfl, rfl, rfl, rfl⟩, AnsRel.of_eq rfl⟩
+  | iAppend before after =>
+    simp only [stepP, stepS, ivAppend_eq]
+    exact ⟨⟨hm, hs, rfl, rfl, rfl, rfl, rfl⟩, AnsRel.of_eq rfl⟩
   | bNew xs =>
     simp only [stepP, stepS, bytesNew_eq]
-    exact ⟨⟨hm, hs, rfl, rfl, rfl, rfl⟩, AnsRel.of_eq rfl⟩
-  | bLen => exact ⟨⟨hm, hs, rfl, rfl, rfl, rfl⟩, AnsRel.of_eq rfl⟩
+    exact ⟨⟨hm, hs, rfl, rfl, rfl, rfl, rfl⟩, AnsRel.of_eq rfl⟩
+  | bLen => exact ⟨⟨hm, hs, rfl, rfl, rfl, rfl, rfl⟩, AnsRel.of_eq rfl⟩
   | bRef i =>
     simp only [stepP, stepS, bytesRef_eq]
-    exact ⟨⟨hm, hs, rfl, rfl, rfl, rfl⟩, AnsRel.of_eq rfl⟩
+    exact ⟨⟨hm, hs, rfl, rfl, rfl, rfl, rfl⟩, AnsRel.of_eq rfl⟩
   | bSet i x =>
     simp only [stepP, stepS, bytesSet_eq]
-    exact ⟨⟨hm, hs, rfl, rfl, rfl, rfl⟩, AnsRel.of_eq rfl⟩
+    exact ⟨⟨hm, hs, rfl, rfl, rfl, rfl, rfl⟩, AnsRel.of_eq rfl⟩
   | bPush x =>
     simp only [stepP, stepS, bytesPush_eq]
-    exact ⟨⟨hm, hs, rfl, rfl, rfl, rfl⟩, AnsRel.of_eq rfl⟩
+    exact ⟨⟨hm, hs, rfl, rfl, rfl, rfl, rfl⟩, AnsRel.of_eq rfl⟩
   | bAppend before after =>
     simp only [stepP, stepS, bytesAppend_eq]
-    exact ⟨⟨hm, hs, rfl, rfl, rfl, rfl⟩, AnsRel.of_eq rfl⟩
-  | tNew cs => exact ⟨⟨hm, hs, rfl, rfl, rfl, rfl⟩, AnsRel.of_eq rfl⟩
-  | tLen => exact ⟨⟨hm, hs, rfl, rfl, rfl, rfl⟩, AnsRel.of_eq rfl⟩
+    exact ⟨⟨hm, hs, rfl, rfl, rfl, rfl, rfl⟩, AnsRel.of_eq rfl⟩
+  | tNew cs => exact ⟨⟨hm, hs, rfl, rfl, rfl, rfl, rfl⟩, AnsRel.of_eq rfl⟩
+  | tLen => exact ⟨⟨hm, hs, rfl, rfl, rfl, rfl, rfl⟩, AnsRel.of_eq rfl⟩
   | tRef i =>
     simp only [stepP, stepS, stringRef_eq]
-    exact ⟨⟨hm, hs, rfl, rfl, rfl, rfl⟩, AnsRel.of_eq rfl⟩
+    exact ⟨⟨hm, hs, rfl, rfl, rfl, rfl, rfl⟩, AnsRel.of_eq rfl⟩
   | tSub i j =>
     simp only [stepP, stepS, substring_eq]
-    exact ⟨⟨hm, hs, rfl, rfl, rfl, rfl⟩, AnsRel.of_eq rfl⟩
+    exact ⟨⟨hm, hs, rfl, rfl, rfl, rfl, rfl⟩, AnsRel.of_eq rfl⟩
   | tToList i j =>
     simp only [stepP, stepS, stringToList_eq]
-    exact ⟨⟨hm, hs, rfl, rfl, rfl, rfl⟩, AnsRel.of_eq rfl⟩
+    exact ⟨⟨hm, hs, rfl, rfl, rfl, rfl, rfl⟩, AnsRel.of_eq rfl⟩
   | tAppend before after =>
     simp only [stepP, stepS, stringAppend_eq]
-    exact ⟨⟨hm, hs, rfl, rfl, rfl, rfl⟩, AnsRel.of_eq rfl⟩
+    exact ⟨⟨hm, hs, rfl, rfl, rfl, rfl, rfl⟩, AnsRel.of_eq rfl⟩
 
 /-- two answer sequences agree: same length, related position by position -/
 inductive AnsSeqRel : List Ans → List Ans → Prop
